@@ -25,12 +25,16 @@ def tie(rep, tier, rng, model_ok):
                ((4, 300, 200), (2, 500, 100), (8, 200, 300), (3, 400, 50)))
     c = [simgen.gen_net(rng, hier=True) for _ in range(200 if q else 3000)]
     d = [simgen.gen_deadlock(rng) for _ in range(100 if q else 2000)]
+    # handlers that build, run and drop a nested simulation (whose model may panic: the error is handled by
+    # the handler) while messages of the enclosing simulation are in flight: the enclosing count must be unaffected
+    e = [simgen.gen_nested(rng) for _ in range(200 if q else 3000)]
     simprops.run(rep, "C06", model_ok,
                  [("deadlocks", a, (1, 4) if q else (1, 2, 4, 8, 16), ORACLES, nontrivial),
                   ("no-false-report", b, (1, 4), ORACLES, lambda c, o: True),
                   ("no-false-report-delayed", c, dl, ORACLES, lambda c, o: True),
-                  ("deadlocks-delayed", d, dl[:2], ORACLES, nontrivial)],
-                 "query loop-backs (direct, transitive, inside sub-models with named/unnamed parents), a handler that over-fills its own mailbox, orphan mailboxes (events and queries), capacities 1..3; exact comparison of the verdict (names, counts) with Sim.v + accounting oracle; message-passing benches with hierarchies must never be reported deadlocked/lossy, also with seeded delays (yield/sleep up to 300 us with probability 0.2-0.5) at every protocol point of the multi-threaded executor. non-trivial = a Deadlock or MessageLoss verdict occurs")
+                  ("deadlocks-delayed", d, dl[:2], ORACLES, nontrivial),
+                  ("no-false-report-nested", e, (1, 2, 4), ORACLES, lambda c, o: True)],
+                 "query loop-backs (direct, transitive, inside sub-models with named/unnamed parents), a handler that over-fills its own mailbox, orphan mailboxes (events and queries), capacities 1..3; exact comparison of the verdict (names, counts) with Sim.v + accounting oracle; message-passing benches with hierarchies must never be reported deadlocked/lossy, also when handlers run nested simulations (1-3 threads) whose model may panic, and with seeded delays (yield/sleep up to 300 us with probability 0.2-0.5) at every protocol point of the multi-threaded executor. non-trivial = a Deadlock or MessageLoss verdict occurs")
 
 
 def replay(rep, path, model_ok):
